@@ -275,6 +275,17 @@ func TestMerge(t *testing.T) {
 				}
 			}
 		}
+		bName := map[string]node{}
+		for _, bn := range tc.Backend {
+			bName[bn.Name] = bn
+		}
+		for i := range tc.Backend {
+			if rd := tc.Backend[i].Rd; rd != "" {
+				if tg, ok := bName[rd]; !ok || tg.Rd != "" {
+					tc.Backend[i].Rd = ""
+				}
+			}
+		}
 		// fresh proxy command tree
 		mgr.Root = brigodier.RootCommandNode{}
 		reg := map[string]brigodier.CommandNode{}
@@ -336,8 +347,18 @@ func feed(tw *tracefmt.Writer, st *stats, pl *playfix.Play, tc tcase, perms []st
 	hasRd bool, held map[string]bool) bool {
 	pl.Client.Take()
 	root := &brigodier.RootCommandNode{}
+	breg := map[string]brigodier.CommandNode{}
 	for _, bn := range tc.Backend {
-		root.AddChild(buildNode(bn, nil, root, nil))
+		if bn.Rd == "" {
+			nd := buildNode(bn, nil, root, nil)
+			root.AddChild(nd)
+			breg[bn.Name] = nd
+		}
+	}
+	for _, bn := range tc.Backend { // backend aliases redirecting to another backend root command
+		if bn.Rd != "" {
+			root.AddChild(buildNode(bn, nil, root, breg[bn.Rd]))
+		}
 	}
 	pl.FromBackend(&packet.AvailableCommands{RootNode: root})
 	// the packet is written after the (asynchronous) PlayerAvailableCommandsEvent
